@@ -49,8 +49,14 @@ pub(crate) fn run(seed: u64, n: u64, out: &mut Out) {
             net.restart();
         }
         let peer = PeerIndex::new(1);
-        let proved_at = if rng.chance(1, 4) { rng.range(fin * interval + 1, tip).min(tip) } else { tip };
+        let proved_at = if rng.chance(2, 5) { rng.range(fin * interval + 1, tip).min(tip) } else { tip };
         if !net.prove_peer(peer, &bc.chain, proved_at) { out.stat("fh-unproven-world", &format!("{}", world)); continue; }
+        // a peer that has ANNOUNCED more than it has proven (a last state is only a claim): what it may deliver hashes for is
+        // bounded by the proven header, not by the announced one
+        if proved_at + 1 < tip && rng.chance(2, 3) {
+            let r = net.lc_recv(peer, super::prover::last_state_message(&bc.chain, tip).as_bytes());
+            if r.panicked { out.stat("fh-announce-panicked", &format!("{}", world)); }
+        }
         let unproven = PeerIndex::new(78);
         net.lc_connect(unproven);
         let stranger = PeerIndex::new(77);
